@@ -20,14 +20,20 @@ func init() {
 }
 
 type c07Family struct {
-	singles []NamedReg // one registry per lint
-	groups  []NamedReg // per source, e_/w_/n_, halves
-	compl   []NamedReg // complement of each source
+	// pristine: the global registry as listed before the first Filter call of this process. What a filter
+	// "selects" is computed from this list and the filter options (the set comprehension of C08), never
+	// from the filtered registry's own listing — a Filter that damages listings would otherwise define
+	// its own expectation.
+	pristine []lintDesc
+	selected map[string]map[string]bool // registry name + "|" + kind → selected lint names (from the model)
+	singles  []NamedReg                 // one registry per lint
+	groups   []NamedReg                 // per source, e_/w_/n_, halves
+	compl    []NamedReg                 // complement of each source
 }
 
 func buildC07Family() (*c07Family, error) {
 	g := lint.GlobalRegistry()
-	f := &c07Family{}
+	f := &c07Family{pristine: snapshotRegistry(g)}
 	names := g.Names()
 	for _, n := range names {
 		r, err := g.Filter(lint.FilterOptions{IncludeNames: []string{n}})
@@ -51,12 +57,27 @@ func buildC07Family() (*c07Family, error) {
 }
 
 // c07Compare: the filtered run against the full run (both on fresh parses).
-func c07Compare(full, part *zlint.ResultSet, reg lint.Registry, kind seeds.Kind, regName string) [][2]string {
-	var bad [][2]string
-	want := map[string]bool{}
-	for _, n := range zl.KindNames(kind, reg) {
-		want[n] = true
+func (f *c07Family) want(nr NamedReg, kind seeds.Kind) map[string]bool {
+	k := nr.Name + "|" + kind.String()
+	if w, ok := f.selected[k]; ok {
+		return w
 	}
+	if f.selected == nil {
+		f.selected = map[string]map[string]bool{}
+	}
+	want := map[string]bool{}
+	sel, _ := refFilter(f.pristine, nr.Opts)
+	for _, d := range sel {
+		if d.Kind == kind.String() {
+			want[d.Name] = true
+		}
+	}
+	f.selected[k] = want
+	return want
+}
+
+func c07Compare(full, part *zlint.ResultSet, want map[string]bool, regName string) [][2]string {
+	var bad [][2]string
 	for n, r := range part.Results {
 		if !want[n] {
 			bad = append(bad, [2]string{"C07|unselected_present", "result for unselected lint " + n + " under " + regName})
@@ -90,6 +111,13 @@ func c07State(st *xstate.State, fam *c07Family, withCompl bool, rep *core.Report
 		return nil
 	}
 	var bad [][2]string
+	// the full run still has one result for every lint of the kind that was registered at start-up
+	for _, d := range fam.pristine {
+		if d.Kind == st.Seed.Kind.String() && full.Results[d.Name] == nil {
+			bad = append(bad, [2]string{"C07|full_run_lost_lint", "the full registry no longer yields a result for " + d.Name + " after filtered registries were derived from it"})
+			break
+		}
+	}
 	run := func(nr NamedReg) {
 		// fresh parse of the same bytes: nothing cached in the object can help
 		o, err := zl.Parse(st.Seed.Kind, st.DER)
@@ -105,7 +133,7 @@ func c07State(st *xstate.State, fam *c07Family, withCompl bool, rep *core.Report
 			bad = append(bad, [2]string{"C07|panic_filtered_only", fmt.Sprintf("panic under %s but not with the full registry: %v", nr.Name, p)})
 			return
 		}
-		bad = append(bad, c07Compare(full, part, nr.Reg, st.Seed.Kind, nr.Name)...)
+		bad = append(bad, c07Compare(full, part, fam.want(nr, st.Seed.Kind), nr.Name)...)
 	}
 	for _, nr := range fam.singles {
 		run(nr)
